@@ -372,7 +372,7 @@ func flatTags(fn string, args []c08Arg) (tags []string, heavy bool) {
 		if len(args) == 2 && args[0].Const {
 			if c, ok := atoiOk(v[1]); ok {
 				l := int64(len(v[0]))
-				if c < 0 || (l > 0 && c > repeatCap/l) {
+				if c < 0 || c > repeatCap || l*c > repeatCap {
 					tags = append(tags, "kf:C08-repeat-count")
 					heavy = c > 0
 				}
@@ -384,6 +384,14 @@ func flatTags(fn string, args []c08Arg) (tags []string, heavy bool) {
 			ml, ok2 := atoiOk(v[2])
 			if ok1 && ok2 && (ml < 0 || ml > barCap) {
 				tags = append(tags, "kf:C08-bar-length")
+				heavy = true
+			}
+		}
+	case "bytesize", "bytesizesi", "downscale", "round", "percent":
+		// the precision (a constant of the template) is handed to strconv.FormatFloat unchecked
+		if len(args) >= 2 && args[1].Const {
+			if p, ok := atoiOk(v[1]); ok && p > 1000001 {
+				tags = append(tags, "kf:C08-precision-unbounded")
 				heavy = true
 			}
 		}
@@ -641,7 +649,11 @@ func c08Gen(r *Rng, n int, tier string) []Case {
 			for fn == "@range" || fn == "repeat" || fn == "bar" {
 				fn = Pick(r, names)
 			}
-			base, _, _ = mkCall("call", fn, genArgs(r, fn, r.Range(0, 4)), false, true)
+			var heavy bool
+			base, _, heavy = mkCall("call", fn, genArgs(r, fn, r.Range(0, 4)), false, true)
+			for heavy { // the domains of the recorded resource findings are generated as calls, not mutated
+				base, _, heavy = mkCall("call", fn, genArgs(r, fn, r.Range(0, 4)), false, true)
+			}
 		}
 		tpl := []rune(unhex(base.Template))
 		if len(tpl) > 400 {
@@ -733,7 +745,7 @@ func genNested(r *Rng, names []string) (c08In, []string) {
 		tpl = fmt.Sprintf("{@reduce %s %s %s}", arr, quote(sub), Pick(r, []string{"", "0", "\"\"", "x"}))
 	case 3:
 		// the condition tests the loop index against a small number: at most 7 rounds
-		lim := Pick(r, []string{"{lim}", "3", "0", "7"})
+		lim := Pick(r, []string{"{lim}", "3", "0", "7", "2", "3", "7", "1"})
 		incr := Pick(r, []string{"{sumi {0} 1}", "{0}a", sub, sub})
 		tpl = fmt.Sprintf("{@for %s {lt {1} %s} %s}", Pick(r, []string{"0", "{0}", "a", "\"\""}), lim, quote(incr))
 		tags = append(tags, "nested:for")
@@ -798,6 +810,7 @@ func fixedCases() []fixedCase {
 	call("bar", G("5"), K("5"), K("10001"))
 	call("bar", G("5"), K("5"), K("-1229782938247303442"))
 	call("@range", G("0"), G("9223372036854775807"))
+	call("downscale", G("-9223372036854775808"), K("2147483648"))
 	raw := func(kind, tpl string, groups []string, keys map[string]string, tags ...string) {
 		var g []string
 		for _, x := range groups {
@@ -861,7 +874,9 @@ func textTags(t string) []string {
 				break
 			}
 		}
-		if strings.Contains(t, "{lt {0} x}") || (strings.Contains(t, "{0}a") && strings.Contains(t, "{lim}")) {
+		// a condition that is not constant (the optimiser evaluates it with every look-up = "") or never false,
+		// and an increment other than the counter {sumi {0} 1}: the value may grow without bound
+		if strings.Contains(t, "{lt {0} x}") || (strings.Contains(t, "{lim}") && !strings.HasSuffix(t, "{sumi {0} 1}}") && !strings.HasSuffix(t, "{sumi {0} 1}\"}")) {
 			tags = append(tags, "kf:C08-for-output-unbounded")
 		}
 	} else if sub {
